@@ -177,6 +177,111 @@ theorem gen_calculate_type (fs : List (String × V)) (name : List Char) (value :
   rw [h0, fld_loop, finish_eq, calcType_append (ss.map kindOfV)]
   simp only [List.map_append, List.append_nil]
 
-theorem translatedPolicy_covers : translatedPolicy = ["_calculate_type"] := by decide
+/-! ### `_check_field_type` and `__setattr__` -/
+
+def isDefName (name : List Char) : Bool := isDefField (String.ofList name)
+
+theorem in_def_fields (name : List Char) :
+    cmpIn (.ok (V.py (.str name))) (cStrList ["subjects", "resources", "actions"]) = ofBool (isDefName name) := by
+  simp only [cmpIn, cStrList, bindM_ok, List.map_cons, List.map_nil, List.any_cons, List.any_nil, Bool.or_false, ofBool_eq,
+    isDefName, isDefField, Generated.definitionFields]
+  have h : ∀ s : String, pyEq (.str name) (.str s.toList) = (String.ofList name == s) := by
+    intro s
+    have h0 : pyEq (.str name) (.str s.toList) = (name == s.toList) := by simp [pyEq]
+    rw [h0]
+    apply Bool.eq_iff_iff.mpr
+    simp only [beq_iff_eq]
+    constructor
+    · intro hn; rw [hn]; simp
+    · intro hn; rw [← hn]; simp
+  simp only [h]
+  generalize String.ofList name = n
+  simp only [List.contains, List.elem]
+  cases (n == "subjects") <;> cases (n == "resources") <;> cases (n == "actions") <;> rfl
+
+/-- the element test of `_check_field_type` -/
+def okElem : V → M := fun c1_x => (pyOr (isinstanceM (pure c1_x) "str") (fun _ => (isRuleLikeM (pure c1_x))))
+
+theorem okElem_eval (e : V) : okElem e = ofBool (kindOfV e != .other) := by
+  cases e with
+  | py v => cases v <;> simp [okElem, pyOr, isinstanceM, isRuleLikeM, isStr, kindOfV, truth, truthy]
+  | rule x => simp [okElem, pyOr, isinstanceM, isRuleLikeM, kindOfV, truth, truthy]
+  | attrs x => simp [okElem, pyOr, isinstanceM, isRuleLikeM, kindOfV, truth, truthy]
+  | _ => simp [okElem, pyOr, isinstanceM, isRuleLikeM, kindOfV, truth, truthy]
+
+theorem comp_okElem (xs : List V) :
+    compM xs okElem = .ok (xs.map fun e => V.py (.bool (kindOfV e != .other))) := by
+  induction xs with
+  | nil => rfl
+  | cons x rest ih => simp only [compM, okElem_eval, ofBool_eq, ih, List.map_cons]
+
+theorem all_ok (xs : List V) :
+    (xs.map fun e => V.py (.bool (kindOfV e != EKind.other))).all truth = !(xs.map kindOfV).any (· == EKind.other) := by
+  induction xs with
+  | nil => rfl
+  | cons x rest ih =>
+    simp only [List.map_cons, List.all_cons, List.any_cons, truth_bool, ih, Bool.not_or]
+    cases kindOfV x <;> rfl
+
+/-- **`Policy._check_field_type` as written in the source is the model's `checkField`** for a value that is a sequence of
+elements (a definition field) or any object (every other name): it raises exactly when a definition field holds an element
+that is neither a string nor a rule nor an attribute dictionary, or when the context is not a dictionary -/
+theorem gen_check_field_type (self : V) (name : List Char) (xs : List V) :
+    check_field_type_Policy self (.py (.str name)) (.seq xs) =
+      (if isDefName name && (xs.map kindOfV).any (· == EKind.other) then raiseM
+       else if name == "context".toList then raiseM else cNone) := by
+  have hall : callAll (listCompM (.ok (V.seq xs)) okElem) = ofBool (!(xs.map kindOfV).any (· == EKind.other)) := by
+    simp only [listCompM, bindM_ok, items, comp_okElem, Except.map, callAll, ofBool_eq, all_ok]
+  have hctx : cmpEq (.ok (V.py (.str name))) (cStr "context") = ofBool (name == "context".toList) := by
+    simp only [cmpEq, cmp2, bindM_ok, cStr, liftR_ok, pyEq, ofBool_eq]
+  show (iteM (pyAnd (cmpIn (pure (V.py (.str name))) (cStrList ["subjects", "resources", "actions"]))
+      (fun _ => (pyNot (callAll (listCompM (pure (V.seq xs)) okElem))))) raiseM
+      (iteM (pyAnd (cmpEq (pure (V.py (.str name))) (cStr "context")) (fun _ => (pyNot (isinstanceM (pure (V.seq xs)) "dict"))))
+      raiseM cNone)) = _
+  simp only [pure_ok, in_def_fields, hall, hctx, pyAnd, ofBool_eq, bindM_ok, truth_bool, pyNot_ok, isinstanceM, iteM_ok]
+  cases isDefName name <;> cases (xs.map kindOfV).any (· == EKind.other) <;> cases (name == "context".toList) <;> rfl
+
+/-- … in the model's words: `checkField` over the kinds of the elements -/
+theorem gen_check_field_type_model (self : V) (name : List Char) (xs : List V) :
+    check_field_type_Policy self (.py (.str name)) (.seq xs) =
+      (match checkField (String.ofList name) (.seq (xs.map kindOfV)) false with
+       | some _ => raiseM
+       | Option.none => cNone) := by
+  rw [gen_check_field_type]
+  have hc : (name == "context".toList) = (String.ofList name == "context") := by
+    apply Bool.eq_iff_iff.mpr
+    simp only [beq_iff_eq]
+    constructor
+    · intro hn; rw [hn]; rfl
+    · intro hn; rw [← hn]; simp
+  simp only [checkField, isDefName, hc, Bool.not_false, Bool.and_true]
+  by_cases hn : String.ofList name = "context"
+  · have hd : isDefField "context" = false := by decide
+    simp [hn, hd]
+  · have hn' : (String.ofList name == "context") = false := by simpa using hn
+    simp only [hn']
+    cases isDefField (String.ofList name) <;> cases (xs.map kindOfV).any (· == EKind.other) <;> rfl
+
+/-- **`Policy.__setattr__` as written in the source**: the two checks first (`_check_field_type`, then `_calculate_type` on a copy),
+and only when neither raised the two writes - the attribute, then the computed type.  A rejected assignment ends in an exception
+before anything was written (the result is never the bare changed object that `objSetK` leaves behind when something raises after
+a write), an accepted one leaves the object with the new value and the type `_calculate_type` returned. -/
+theorem gen_setattr (fs : List (String × V)) (name : List Char) (value : V) :
+    setattr_Policy (.obj fs) (.py (.str name)) value =
+      (match check_field_type_Policy (.obj fs) (.py (.str name)) value with
+       | .error e => .error e
+       | .ok _ => match calculate_type_Policy (.obj fs) (.py (.str name)) value with
+         | .error e => .error e
+         | .ok t => .ok (.seq [.py .none, .obj (objSet "type" t (objSet (String.ofList name) value fs))])) := by
+  simp only [setattr_Policy, pure_ok, bindM_ok]
+  cases check_field_type_Policy (.obj fs) (.py (.str name)) value with
+  | error e => rfl
+  | ok v =>
+    simp only [bindM_ok]
+    cases calculate_type_Policy (.obj fs) (.py (.str name)) value with
+    | error e => rfl
+    | ok t => simp [objSetK, cStr, pairM, cNone]
+
+theorem translatedPolicy_covers : translatedPolicy = ["_calculate_type", "_check_field_type", "__setattr__"] := by decide
 
 end Vakt.GenEquiv
